@@ -348,8 +348,20 @@ def _default_matches_schema(default: Any, schema: Schema) -> bool:
         or (schema == "boolean" and not isinstance(default, bool))
         or (schema == "string" and not isinstance(default, str))
         or (schema == "bytes" and not isinstance(default, str))
-        or (schema == "double" and not isinstance(_maybe_float(default), float))
-        or (schema == "float" and not isinstance(_maybe_float(default), float))
+        or (
+            schema == "double"
+            and (
+                isinstance(default, bool)
+                or not isinstance(_maybe_float(default), float)
+            )
+        )
+        or (
+            schema == "float"
+            and (
+                isinstance(default, bool)
+                or not isinstance(_maybe_float(default), float)
+            )
+        )
         or (
             schema == "int"
             and (not isinstance(default, int) or isinstance(default, bool))
